@@ -1,4 +1,5 @@
 import GB.C14.Proofs
+import GB.C14.ProofsEsc
 import GB.C14.Atomic
 import GB.C14.ProofsDefault
 import GB.C06.Props
@@ -141,23 +142,118 @@ theorem C14_http_name (p : Bytes) (u : URL) (h : setPath p = some u) :
     an empty RawPath, and gRPC (`:path` verbatim), gRPC-Web (`URL.Path`) and HTTP POST (`RawPath`, else the
     escaped path) read the same name. -/
 theorem C14_forms_agree (p : Bytes) (hp : Plain p) (hs : p.head? = some slash) :
-    parseTarget p = some ⟨p, []⟩ ∧ webName ⟨p, []⟩ = p ∧ httpName ⟨p, []⟩ = p := by
+    parseTarget p = some ⟨p, []⟩ ∧ webName ⟨p, []⟩ = p ∧ httpName ⟨p, []⟩ = p ∧ webNamePreFix ⟨p, []⟩ = p := by
   have ht := targetPath_plain p hp
   have hu := unescapePath_plain p hp
   have he := escapePath_plain p hp
-  refine ⟨?_, rfl, ?_⟩
-  · cases p with
-    | nil => simp at hs
-    | cons c cs =>
-      simp only [List.head?_cons, Option.some.injEq] at hs
-      subst hs
-      show setPath (targetPath (slash :: cs)) = _
-      rw [ht]
-      simp [setPath, hu, he]
-  · simp only [httpName, escapedPathNoRaw]
+  have hn : httpName ⟨p, []⟩ = p := by
+    simp only [httpName, escapedPathNoRaw]
     have : p ≠ [42] := by
       intro e; subst e; simp [slash] at hs
     simp [this, he]
+  refine ⟨?_, hn, hn, rfl⟩
+  cases p with
+  | nil => simp at hs
+  | cons c cs =>
+    simp only [List.head?_cons, Option.some.injEq] at hs
+    subst hs
+    show setPath (targetPath (slash :: cs)) = _
+    rw [ht]
+    simp [setPath, hu, he]
+
+/-! ### escaped paths (fix D38)
+
+  The same request line can arrive on three entries: gRPC (`:path`, never decoded), HTTP POST (`RouteHTTP`: RawPath, else
+  EscapedPath — the path as written) and gRPC-Web (`gRPCWebServerStream.Method()`).  Before fix D38 the last one returned
+  `URL.Path`, the percent-DECODED path.  `C14_forms_agree_iff_before_fix` delimits the request paths on which that
+  differs from the other two: exactly those containing a '%'.  The property text routes "the target whose current
+  description lists package.Service" with "the method name passed through verbatim" for a call "arriving as gRPC, gRPC-Web
+  or an HTTP POST path": one answer per path, and a verbatim name — the decoded reading hands the target a method string
+  the client did not send and routes `/p%2ES/M` to the owner of `p.S` while the other two entries answer "unknown
+  service".  Fixed in the code (Method() = the path as written); the theorems below are about the fixed code, the
+  `…_before_fix` ones about `webNamePreFix`. -/
+
+/-- **All entries read the request path exactly as written** — for EVERY origin-form target net/url accepts, escaped
+    or not: the gRPC-Web name and the HTTP POST name are the bytes before the first '?' (which is also what a gRPC
+    client's `:path` carries, `C14_method_verbatim`). -/
+theorem C14_forms_agree_all (t : Bytes) (u : URL) (h : parseTarget t = some u) :
+    webName u = targetPath t ∧ httpName u = targetPath t := by
+  unfold parseTarget at h
+  split at h
+  · rcases httpName_setPath _ u h with hn | ⟨hp, _⟩
+    · exact ⟨hn, hn⟩
+    · exfalso
+      simp [targetPath, List.takeWhile_cons] at hp
+  · cases h
+
+/-- **Where the decoded reading differs** (the code before fix D38): `URL.Path` equals the path as written **iff** the
+    path contains no '%'.  (net/url accepts a '%' only as the start of a valid escape, and every escape decodes to a
+    single byte; so the set of paths on which the forms could disagree is exactly the set of paths with an escape.) -/
+theorem C14_forms_agree_iff_before_fix (t : Bytes) (u : URL) (h : parseTarget t = some u) :
+    webNamePreFix u = httpName u ↔ percent ∉ targetPath t := by
+  have hn := (C14_forms_agree_all t u h).2
+  have hp : unescapePath (targetPath t) = some u.path := by
+    unfold parseTarget at h
+    split at h
+    · exact setPath_path _ u h
+    · cases h
+  rw [hn, ← unescapePath_self_iff, hp]
+  simp only [webNamePreFix, Option.some.injEq]
+
+/-- gRPC-Web and HTTP POST route every accepted request line alike (fixed code): same owner, same description
+    version, same service index, same verbatim method string — or both "nobody". -/
+theorem C14_web_http_same_route (pool : Name → Bool) (routes : SvcName → Option SvcRoute) (t : Bytes) (u : URL)
+    (h : parseTarget t = some u) (tg : Name) (v : Ver) (i : Nat) (rpc : Bytes) :
+    routeGRPC pool routes (some (webName u)) = .ok tg v i rpc ↔
+      routeHTTPsvc pool routes POST u = .ok tg v i rpc POST rpc := by
+  have hw : webName u = httpName u := rfl
+  simp only [routeHTTPsvc, routeHTTPsvcName, routeGRPC, hw, ne_eq, not_true_eq_false, if_false]
+  cases parseRPCName (httpName u) with
+  | none => simp
+  | some p =>
+    obtain ⟨svc, m⟩ := p
+    simp only []
+    cases routes svc with
+    | none => simp
+    | some r =>
+      simp only []
+      by_cases hp : pool r.target = true
+      · simp only [hp, if_true, GRPCRes.ok.injEq, HTTPSvcRes.ok.injEq]
+        constructor
+        · rintro ⟨a, b, c, d⟩; simp [a, b, c, d]
+        · intro hh; simp at hh; simp [hh]
+      · simp [hp]
+
+/-- the request line `POST /p%2ES/M` with target "a" owning `p.S` (and pooled) -/
+def escTarget : Bytes := [47, 112, 37, 50, 69, 83, 47, 77]
+def escRoutes : SvcName → Option SvcRoute := fun s => if s = [112, 46, 83] then some ⟨[97], 1, 0⟩ else none
+
+/-- **Before fix D38, on the same bytes**: gRPC-Web decoded the path, routed to the owner of `p.S` and handed on the method
+    string `/p.S/M` (not what the client sent); gRPC (`:path` verbatim) and HTTP POST answered "unknown service". -/
+theorem C14_escaped_path_forms_differ_before_fix :
+    (parseTarget escTarget).map (fun u =>
+      (routeGRPC (fun _ => true) escRoutes (some (webNamePreFix u)),
+       routeGRPC (fun _ => true) escRoutes (some escTarget),
+       routeHTTPsvc (fun _ => true) escRoutes POST u)) =
+    some (.ok [97] 1 0 [47, 112, 46, 83, 47, 77], .status codeUnimplemented, .status codeNotFound none) := by
+  decide
+
+/-- … after the fix all three say "unknown service". -/
+theorem C14_escaped_path_forms_agree_after_fix :
+    (parseTarget escTarget).map (fun u =>
+      (routeGRPC (fun _ => true) escRoutes (some (webName u)),
+       routeGRPC (fun _ => true) escRoutes (some escTarget),
+       routeHTTPsvc (fun _ => true) escRoutes POST u)) =
+    some (.status codeUnimplemented, .status codeUnimplemented, .status codeNotFound none) := by
+  decide
+
+/-- an escape in the METHOD part: before the fix gRPC-Web called method `MA` for the path `/p.S/M%41`; now `M%41`, like
+    the other two entries (the target then decides; the bridge does not reinterpret the name). -/
+theorem C14_escaped_method_before_and_after_fix :
+    (parseTarget [47, 112, 46, 83, 47, 77, 37, 52, 49]).map (fun u =>
+      (routeGRPC (fun _ => true) escRoutes (some (webNamePreFix u)), routeGRPC (fun _ => true) escRoutes (some (webName u)))) =
+    some (.ok [97] 1 0 [47, 112, 46, 83, 47, 77, 65], .ok [97] 1 0 [47, 112, 46, 83, 47, 77, 37, 52, 49]) := by
+  decide
 
 /-- **First claimant keeps a contested service** over any claim history: if after a history `h` target `n`
     owns `svc`, then after any continuation in which `n` is not closed and every description delivered for
@@ -306,9 +402,11 @@ example : Names [47, 112, 46, 83, 47, 77, 47, 120] [112, 46, 83] [77, 47, 120] :
 example : Names [112, 46, 83, 47] [112, 46, 83] [] := by unfold Names; decide
 example : parseRPCName [47, 47, 77] = some ([], [77]) := by decide
 example : Plain [47, 112, 46, 83, 47, 77] := by unfold Plain; decide
-/-- an escaped path is *not* read alike by the HTTP form (verbatim) and the gRPC-Web form (decoded) -/
-example : (parseTarget [47, 112, 37, 50, 69, 83, 47, 77]).map (fun u => (httpName u, webName u)) =
-    some ([47, 112, 37, 50, 69, 83, 47, 77], [47, 112, 46, 83, 47, 77]) := by decide
+/-- an escaped path was *not* read alike by the HTTP form (verbatim) and the gRPC-Web form before fix D38 (decoded) -/
+example : (parseTarget [47, 112, 37, 50, 69, 83, 47, 77]).map (fun u => (httpName u, webNamePreFix u, webName u)) =
+    some ([47, 112, 37, 50, 69, 83, 47, 77], [47, 112, 46, 83, 47, 77], [47, 112, 37, 50, 69, 83, 47, 77]) := by decide
+/-- `C14_forms_agree_iff_before_fix` is not vacuous: the escaped target is accepted and contains a '%' -/
+example : (parseTarget escTarget).isSome = true ∧ percent ∈ targetPath escTarget := by decide
 
 
 /-! ## First-claimant stability as an invariant, down to single sync.Map operations (for C11) -/
